@@ -1,8 +1,9 @@
 #!/bin/sh
 # Offline setup: nothing is built or downloaded. Verifies that the tools the checks need are present.
-set -e
-cd "$(dirname "$0")/.."
-java -cp /opt/veriftools/tla/tla2tools.jar:/opt/veriftools/tla/CommunityModules-deps.jar tlc2.TLC -h >/dev/null 2>&1 || { echo "TLC missing"; exit 1; }
+cd "$(dirname "$0")/.." || exit 1
+test -f /opt/veriftools/tla/tla2tools.jar || { echo "tla2tools.jar missing"; exit 1; }
+test -f /opt/veriftools/tla/CommunityModules-deps.jar || { echo "CommunityModules missing"; exit 1; }
+java -version >/dev/null 2>&1 || { echo "java missing"; exit 1; }
 /venv/bin/python -c "import sys; sys.path.insert(0, '/repo'); import hypergraphx, numpy, scipy, networkx" || { echo "repo interpreter broken"; exit 1; }
 mkdir -p .work evidence replays
 echo "setup ok"
